@@ -37,10 +37,10 @@ def scripts_for(total):
     """every failing position x {E, P, end of input} + success (with and without leftover)"""
     out = [('ok', 'o' * total), ('ok+tail', 'o' * total + 'EPo')]
     for j in range(total):
-        for m in 'EP':
+        for m in 'EPIUW':     # E/I/U/W: element decoder errors of different kinds; P: panic
             out.append(('%s@%d' % (m, j), 'o' * j + m + 'o' * (total - 1 - j)))
             # a second failure behind the first one must not be reached
-            out.append(('%s@%d+' % (m, j), 'o' * j + m + ('P' if m == 'E' else 'E') * (total - 1 - j)))
+            out.append(('%s@%d+' % (m, j), 'o' * j + m + ('E' if m == 'P' else 'P') * (total - 1 - j)))
         out.append(('eof@%d' % j, 'o' * j))
     return out
 
